@@ -326,6 +326,36 @@ func runC14(o *opts) (*summary, error) {
 			return projDate(v), err
 		}), "text-date")
 	}
+	// the same date texts as the start / end date of a card document (and the document without the member)
+	for i, s := range append([]string{"<absent>"}, dates...) {
+		s := s
+		which := []string{"start-date", "end-date"}[i%2]
+		put(textEv("card-date", "Card.UnmarshalJSON/"+which, map[bool]string{true: "", false: s}[s == "<absent>"], func() (any, error) {
+			c := types.Card{CardNumber: 8165538, From: types.ToDate(2023, 1, 1), To: types.ToDate(2023, 12, 31), Doors: map[uint8]uint8{1: 1, 2: 0, 3: 29, 4: 1}, PIN: 7531}
+			b, err := json.Marshal(c)
+			if err != nil {
+				return nil, nil // (no document to edit: nothing to judge)
+			}
+			doc := map[string]any{}
+			if err := json.Unmarshal(b, &doc); err != nil {
+				return nil, nil
+			}
+			if s == "<absent>" {
+				delete(doc, which)
+			} else {
+				doc[which] = s
+			}
+			b, _ = json.Marshal(doc)
+			var v types.Card
+			if err := json.Unmarshal(b, &v); err != nil {
+				return nil, err
+			}
+			if which == "start-date" {
+				return projDate(v.From), nil
+			}
+			return projDate(v.To), nil
+		}), "text-card-date")
+	}
 	hh := []string{"", "24:00", "24:01", "23:60", "00:60", "7:30", "07:3", "0730", "07:30:00", " 07:30", "07:30 ", "ab:cd", "-1:30", "12:5x"}
 	for h := 0; h < 30; h++ {
 		for m := 0; m < 70; m++ {
